@@ -322,6 +322,9 @@ MV_THEOREMS = {'conf_consts_eq', 'conf_up_eq', 'conf_homo_eq', 'conf_down_eq', '
 LOOP_THEOREMS = {'cre_eq', 'crs_eq', 'gmt_element_eq', 'construct_gmt_eq', 'construct_graded_mt_eq'}
 
 
+CLOSED_THEOREMS = {'hitzer_tail_ok', 'hitzer_num1_eq', 'hitzer_num2_eq', 'hitzer_num3_eq', 'hitzer_num4_eq', 'hitzer_num5_eq'}
+
+
 def _tie_a_one(script):
     import re
     p = subprocess.run([sys.executable if sys.executable else 'python3', str(script), '--repo', str(REPO), '--status'],
@@ -354,16 +357,19 @@ def tie_a(names=None):
     expressions of the conformal layers, `translate/loops2lean.py` for the blade-sign loops. Returns ({theorem: axioms | None}, translator status, log tail)."""
     names = set(names or [])
     scripts = []
-    if not names or names - MV_THEOREMS - LOOP_THEOREMS:
+    if not names or names - MV_THEOREMS - LOOP_THEOREMS - CLOSED_THEOREMS:
         scripts.append(VERIF / 'translate' / 'py2lean.py')
     if not names or names & MV_THEOREMS:
         scripts.append(VERIF / 'translate' / 'mv2lean.py')
     if not names or names & LOOP_THEOREMS:
         scripts.append(VERIF / 'translate' / 'loops2lean.py')
+    if not names or names & CLOSED_THEOREMS:
+        scripts.append(VERIF / 'translate' / 'closed2lean.py')
     res, st, log = {}, dict(status={}, theorems={}), ''
     for sc in scripts:
         # what the generated file imports must be compiled first (no-op when it already is)
-        lake_build(['Proofs.Conf2', 'Proofs.CgaObj', 'Proofs.Classify'] if sc.stem == 'mv2lean' else ['Model', 'Proofs.Rev', 'Proofs.Invol'])
+        lake_build({'mv2lean': ['Proofs.Conf2', 'Proofs.CgaObj', 'Proofs.Classify'], 'closed2lean': ['Proofs.Hitzer', 'Proofs.Hitzer4', 'Proofs.Hitzer5']}.get(
+            sc.stem, ['Model', 'Proofs.Rev', 'Proofs.Invol']))
         r, s_, l = _tie_a_one(sc)
         res.update(r)
         if 'error' in s_:
